@@ -108,6 +108,12 @@ func expand(reg *registry.Registry, t *Transaction, accrual *syntax.Accrual) ([]
 	if err != nil {
 		return nil, err
 	}
+	if end.Before(start) {
+		return nil, syntax.Error{
+			Message: "accrual period ends before it starts",
+			Range:   accrual.Range,
+		}
+	}
 	interval, err := date.ParseInterval(accrual.Interval.Extract())
 	if err != nil {
 		return nil, syntax.Error{
